@@ -13,12 +13,13 @@
 // Op lines (input part):
 //
 //	cfg <workers>
-//	sched <id> <sc> <off> <last> cron=<esc> [wk=<w> tbl=<o1,o2,..,!|~>]   (wk/tbl are oracles, always recomputed)
+//	sched <id> <sc> <off> <last> cron=<esc> [frac=<ms>] [wk=<w> tbl=<o1,o2,..,!|~>]   (wk/tbl are oracles, always recomputed;
+//	                                       the offset is <off> s + <frac> ms, printed split as the code truncates it)
 //	rel <id>
 //	adv <d>
 //	done <id> <ok|err|panic> <cpok|cperr>
 //
-// Observation: `<status> q=<when:id:next:off,..> ix=<id:when,..> w=<when|z> tick=<0|1> ev=<events>`.
+// Observation: `<status> q=<when:id:next:off,..> ix=<id:when,..> w=<s.when in ms|z> tick=<0|1> ev=<events>`.
 package c17
 
 import (
@@ -424,7 +425,7 @@ func (h *hcase) observe(status string, wantCkpts int) string {
 	}
 	w := "z"
 	if !snap.When.IsZero() {
-		w = strconv.FormatInt(snap.When.Unix(), 10)
+		w = strconv.FormatInt(snap.When.UnixMilli(), 10)
 	}
 	tick := "0"
 	h.lastTick = snap.TickPending
@@ -469,11 +470,19 @@ func (h *hcase) doOp(t []string) (string, bool) {
 		id := scheduler.ID(atoi(t[1]))
 		off, last := atoi(t[3]), atoi(t[4])
 		cronTok := ""
+		var frac int64
 		for _, x := range t[5:] {
 			if strings.HasPrefix(x, "cron=") {
 				cronTok = x[5:]
 			}
+			if strings.HasPrefix(x, "frac=") {
+				frac = atoi(x[5:])
+			}
 		}
+		// the offset is off seconds + frac milliseconds; printed normalised the way the code splits it:
+		// Item.Offset = int64(Offset().Seconds()) truncates toward zero, frac is the rest (same sign)
+		totalMs := off*1000 + frac
+		off, frac = totalMs/1000, totalMs%1000
 		cronStr, _ := kit.Unesc(cronTok)
 		// scheduler.NewSchedule also returns an aligned last-scheduled time; the harness passes `last` as given
 		// (the property is stated relative to the LastScheduled the Schedulable reports).
@@ -482,10 +491,10 @@ func (h *hcase) doOp(t []string) (string, bool) {
 			return strings.Join(t[:5], " ") + " cron=" + cronTok + " => badcron", true
 		}
 		occ, ended := table(sc, last)
-		line := fmt.Sprintf("sched %d %s %d %d cron=%s wk=%d tbl=%s", id, t[2], off, last, cronTok, workerOf(id, h.workers), renderTable(occ, ended))
+		line := fmt.Sprintf("sched %d %s %d %d cron=%s frac=%d wk=%d tbl=%s", id, t[2], off, last, cronTok, frac, workerOf(id, h.workers), renderTable(occ, ended))
 		var serr error
 		e, returned := call(func() error {
-			return h.s.Schedule(schedulable{id: id, s: sc, off: time.Duration(off) * time.Second, last: time.Unix(last, 0).UTC()})
+			return h.s.Schedule(schedulable{id: id, s: sc, off: time.Duration(totalMs) * time.Millisecond, last: time.Unix(last, 0).UTC()})
 		})
 		if !returned {
 			h.dead = true
